@@ -38,7 +38,23 @@ def generate(seed, tier="quick", mode=None, **kw):
     cls_list = ["j9p", "j9p", "c9", "j9p-num", "text", "md5"] if odd_salt else None
     if mode == "c08" and r.random() < 0.25:
         cls_list = ["text", "text", "num", "hex", "t7", "md5", "j9p", "pseudo", "pseudo", "rwc"]
-    secrets = GC.gen_secrets(r, nid, classes=cls_list, words=o["words"] or ())
+    secrets = GC.gen_secrets(r, nid, classes=cls_list, words=o["words"] or (), variant_rate=(0.4 if mode == "c08" else 0.15))
+    if mode == "c07" and r.random() < 0.25:
+        # world A hides a relation that world B lacks: the same plaintext behind two type-7 encodings (other salt
+        # index) and in clear.  The tokens are pairwise distinct in both worlds, so the outputs must not differ.
+        from passlib.hash import cisco_type7
+        n0 = len(secrets)
+        for attempt in range(20):
+            L = r.randint(10, 12)
+            P, Q1, Q2, Q3 = ["".join(r.choice("ghjkmnpqrstvwxyzGHJKMNPQRSTVWXYZ23456789") for _ in range(L)) for _ in range(4)]
+            s1, s2 = r.sample(range(0, 16), 2)
+            grp = [("t7", cisco_type7.using(salt=s1).hash(P), cisco_type7.using(salt=s1).hash(Q1)),
+                   ("t7", cisco_type7.using(salt=s2).hash(P), cisco_type7.using(salt=s2).hash(Q2)),
+                   ("text", P, Q3)]
+            if all(G.classify(a) == c and G.classify(b) == c and len(a) == len(b) for c, a, b in grp) and len({P, Q1, Q2, Q3}) == 4:
+                for j, (c, a, b) in enumerate(grp[: r.choice([2, 3])]):
+                    secrets[str(n0 + j)] = {"cls": c, "a": a, "b": b, "related": True}
+                break
     ctx = GC.make_ctx(r, o)
     nfiles = r.randint(1, 6)
     paths, dirs, _ = GC.gen_tree(r, nfiles, hidden=False, dirs=r.random() < 0.5)
@@ -247,6 +263,13 @@ def _check_c08(plan):
                 V.append({"prop": "C08", "tag": "same-secret-different-text",
                           "detail": "secret #%s (%s) was replaced by %r at %s and by %r at %s" % (
                               ident, plan["secrets"][ident]["cls"], prev[0], prev[1], tok, where)})
+            if idx is None:
+                # residue of surrounding punctuation next to a pseudonym: still the same pseudonym
+                core_tok = tok.strip("\\'\"[]{};,")
+                if core_tok != tok and core_tok:
+                    idx, tcls = D.decode_any(core_tok, max_n=4 * nsec + 8)
+                    if idx is not None:
+                        probes["decoded_after_strip"] = probes.get("decoded_after_strip", 0) + 1
             if idx is None:
                 probes["undecodable_token"] += 1
                 continue
